@@ -20,6 +20,7 @@ type c24Scenario struct {
 	Server    EndCfg `json:"server"`
 	Net       NetCfg `json:"net"`
 	Resume    bool   `json:"resume"`
+	Server2   []uint16 `json:"server2_suites,omitempty"` // non-nil: the server is reconfigured with this suite list (same ticket keys) before the second connection
 	Downgrade uint16 `json:"downgrade,omitempty"` // transport attack: strip versions above this from the ClientHello
 	Tape      []int  `json:"tape,omitempty"`
 }
@@ -162,6 +163,10 @@ func genC24(seed uint64, tier string) any {
 	for _, i := range r.Perm(len(fit))[:r.Range(1, 3)] {
 		core = append(core, fit[i])
 	}
+	if sc.Server.KeyKind == "rsa" && r.Chance(1, 4) {
+		// finite-field DHE is rare in the table: make sure it is negotiated often enough
+		core = []uint16{[]uint16{0x0033, 0x0039, 0x0067, 0x006b, 0x009e, 0x009f, 0xccaa, 0x0016}[r.Intn(8)]}
+	}
 	sc.Client.Suites = genSuiteList(r, core, 6, true)
 	sc.Server.Suites = genSuiteList(r, core, 8, r.Chance(1, 3))
 	for _, id := range sc.Client.Suites {
@@ -187,6 +192,27 @@ func genC24(seed uint64, tier string) any {
 	sc.Server.NoTickets = r.Chance(1, 6)
 	sc.Client.Cache = r.Chance(7, 10)
 	sc.Resume = sc.Client.Cache && r.Chance(3, 5)
+	if sc.Resume && r.Chance(1, 3) {
+		// the server is reconfigured between the two connections: another explicit suite list
+		for sc.Server2 == nil {
+			sc.Server2 = genSuiteList(r, core[:1+r.Intn(len(core))], 5, false)
+		}
+		if r.Chance(1, 2) && len(sc.Server.Suites) > 1 {
+			// or simply the old list without its first / last element, or reversed
+			l := append([]uint16(nil), sc.Server.Suites...)
+			switch r.Intn(3) {
+			case 0:
+				l = l[1:]
+			case 1:
+				l = l[:len(l)-1]
+			default:
+				for i, j := 0, len(l)-1; i < j; i, j = i+1, j-1 {
+					l[i], l[j] = l[j], l[i]
+				}
+			}
+			sc.Server2 = l
+		}
+	}
 	sc.Client.NoBuffer = r.Chance(1, 4)
 	sc.Server.NoBuffer = r.Chance(1, 4)
 	sc.Client.NoDynRec = r.Chance(1, 4)
@@ -570,9 +596,18 @@ func execC24(t *testing.T, scAny any, keepLog bool) *Outcome {
 		s.Run()
 		o.Fail = c24Check(sc, c1, false, nil, o, rw)
 		if o.Fail == nil && sc.Resume && c1.CErr == nil && c1.SErr == nil {
-			c2 := startConn(run, "b", ccfg, scfg, sc.Net, nil)
+			scfg2, sc2 := scfg, sc
+			if sc.Server2 != nil {
+				scfg2 = scfg.Clone() // keeps the ticket keys
+				scfg2.CipherSuites = sc.Server2
+				cp := *sc
+				cp.Server.Suites = sc.Server2
+				sc2 = &cp
+				o.count("fault.server_reconfigured_between_connections", 1)
+			}
+			c2 := startConn(run, "b", ccfg, scfg2, sc.Net, nil)
 			s.Run()
-			o.Fail = c24Check(sc, c2, true, c1, o, nil)
+			o.Fail = c24Check(sc2, c2, true, c1, o, nil)
 		}
 		if o.Fail == nil && (len(s.Deadlock) > 0 || s.StepCapHit || s.TimeCapHit) {
 			o.Fail = Failf("c24.stuck", "handshake tasks did not finish", "deadlock=%v stepcap=%v timecap=%v", s.Deadlock, s.StepCapHit, s.TimeCapHit)
@@ -737,6 +772,14 @@ func c24Check(sc *c24Scenario, co *connOutcome, second bool, first *connOutcome,
 	// resumption
 	if second {
 		canResume := !sc.Client.NoTickets && !sc.Server.NoTickets && sc.Client.Cache
+		stillEnabled := first.CState.Version == vTLS13 || sc.Server.Suites == nil || u16in(first.CState.CipherSuite, sc.Server.Suites)
+		if sc.Server2 != nil {
+			if cs.DidResume && !stillEnabled {
+				return Failf("c24.resume", "session resumed with a cipher suite the server no longer enables", "suite %04x, server list now %04x", cs.CipherSuite, sc.Server.Suites)
+			}
+			// whether a still-enabled session must resume after a reconfiguration is not asserted
+			canResume = canResume && cs.DidResume
+		}
 		if cs.DidResume {
 			o.count("probe.resumed", 1)
 			if !canResume {
@@ -865,6 +908,6 @@ func init() {
 		FaultKinds:  []string{"net.segments", "net.short_read", "fault.downgrade_rewrite", "probe.downgrade_abort_checked", "probe.sentinel_expected", "probe.resumed", "probe.expected_failure", "probe.handshake_ok", "probe.ekm_compared"},
 		NotInjected: "fault-free configuration by design (negotiation must hold under benign transport behaviour); adversarial wire faults are C25/C32; no storage exists",
 		Gen:         genC24, New: func() any { return &c24Scenario{} }, Exec: execC24, Shrink: shrinkC24,
-		QuickRuns: 6000, ThoroughRuns: 600000,
+		QuickRuns: 40000, ThoroughRuns: 1500000,
 	})
 }
